@@ -1544,6 +1544,11 @@ write_sub_module(ostream &out, Object *obj) {
     InterrogateDatabase *idb = InterrogateDatabase::get_ptr();
     const InterrogateType &wrapped_itype = idb->get_type(wrapped);
 
+    if (!wrapped_itype.is_class() && !wrapped_itype.is_struct()) {
+      // Only a typedef of a class can be an alias of that class's type object.
+      return;
+    }
+
     class_name = make_safe_name(wrapped_itype.get_scoped_name());
 
     out << "  // typedef " << wrapped_itype.get_scoped_name()
